@@ -19,7 +19,7 @@ PROP_FAMILIES = {
     "C05": (["skein"], r"."),
     "C06": (["jh"], r"."),
     "C07": (["groestl"], r"."),
-    "C08": (["blake", "groestl", "jh", "skein"], r"partition|clone|reused"),
+    "C08": (["blake", "groestl", "jh", "skein"], r"depends on the partition|a clone taken|reused hasher"),
     "C17": (["blake", "groestl", "jh", "skein"], r"."),
     "C09": (["threefish"], r"encrypt_block differs"),
     "C10": (["threefish"], r"decrypt_block|!="),
